@@ -126,7 +126,9 @@ def _check_op(model, R, op, P):
     for cl, gname, gexpr in op.grad_reads:
         base = gexpr.value
         if op.multi_output:
-            ok = isinstance(base, ast.Subscript) and isinstance(base.value, ast.Name) and base.value.id == op.out_name
+            # out[<closure parameter>].grad : each output's closure instance reads its own output's gradient
+            ok = isinstance(base, ast.Subscript) and isinstance(base.value, ast.Name) and base.value.id == op.out_name \
+                and isinstance(base.slice, ast.Name) and base.slice.id in cl.params
         else:
             ok = isinstance(base, ast.Name) and base.id == op.out_name
         R.ob(P + '.WRAP', op.qual, norm(gexpr), ok and gexpr.attr == 'grad',
